@@ -277,16 +277,22 @@ def commit(world, obs):
     return w
 
 
-def build(pp, vidx, spec, history, path_objects=None):
+def build(pp, vidx, spec, history, path_objects=None, watch=None):
     """Fresh world from a seed spec and a history of actions (failed actions leave the world unchanged).
-    If path_objects is a list, every object ever bound along the history is appended as (name, exact fp, object)."""
+    If path_objects is a list, every object ever bound along the history is appended as (name, exact fp, object).
+    watch(subs, world, act, obs, k) is called on every transition of the history (a replay looks at the objects along the way as
+    the exploration did: what was looked at earlier is part of the history)."""
     env.clear_caches(pp)
     subs = substances(pp, vidx)
     world = make_world(pp, subs, spec)
     if path_objects is not None:
         path_objects.extend((n, exact_obj(o), o) for n, o in world.items())
-    for act in history:
+    if watch is not None:
+        watch(subs, world, None, None, -1)
+    for k, act in enumerate(history):
         obs = apply(pp, subs, world, act)
+        if watch is not None:
+            watch(subs, world, act, obs, k)
         if obs['ok']:
             world = commit(world, obs)
             if path_objects is not None:
@@ -507,11 +513,37 @@ def _pq(q):
         return False
 
 
+InternalErrorPassthrough = env.InternalError
+
+
 def replay_case(pp, case, monitors):
     """Re-execute one recorded transition from scratch and run the monitors on it."""
     history = case['seed_history'] + case['history']
     path_objects = []
-    subs, world = build(pp, case['vidx'], {k: tuple(v) for k, v in case['spec'].items()}, history, path_objects)
+
+    def watch(subs_, world_, act_, obs_, k_):
+        # the exploration ran the monitors (observers included) on every transition that leads here, on these very objects
+        ctx_ = {'pp': pp, 'subs': subs_, 'k': k_, 'case': case, 'pre_exact': None, 'path_objects': (), 'subs_exact': None,
+                'first_changed': None}
+        if act_ is None:
+            if any(getattr(m, '__name__', '') == 'm_observers' for m in monitors):
+                from . import monitors as _mon          # the seed world is looked at before anything is done with it
+                for n_, o_ in sorted(world_.items()):
+                    try:
+                        (_mon.check_plate_observers if is_plate(o_) else _mon.check_container_observers)(pp, subs_, o_, n_, case)
+                    except Exception:  # noqa
+                        pass
+            return
+        post_ = commit(world_, obs_) if obs_['ok'] else world_
+        for m in monitors:
+            try:
+                m(ctx_, world_, act_, obs_, post_)
+            except InternalErrorPassthrough:
+                raise
+            except Exception:  # noqa: verdicts (and failures) along the way belong to the cases of those transitions
+                pass
+    subs, world = build(pp, case['vidx'], {k: tuple(v) for k, v in case['spec'].items()}, history, path_objects,
+                        watch)
     env.clear_caches(pp)
     act = case['act']
     pre_exact = exact_world(world)
